@@ -65,6 +65,11 @@ def build_queries(L, rng, per_fn):
         # Lib.special builds and runs; we only want the request, so replicate its builder through a dry run object
         r, s = special_req(name, **kw)
         add(r, s)
+    # episodes on a caller-owned crystal array (puremon request 2001): init + add a user crystal that shares a built-in name,
+    # optionally Crystal_ReadFile of a well-formed / corrupt-but-openable / missing / duplicate-defining file, look-ups, free
+    ua = np.zeros(5 * 4, execlib.REQ); ua['fn'] = 2001; ua['s'] = -1
+    ua['i'][:, 0] = np.repeat(np.arange(5), 4); ua['i'][:, 1] = np.tile(np.arange(4), 5)
+    reqs.append(ua)
     return np.concatenate(reqs), strs
 
 
@@ -145,9 +150,10 @@ def main(tier):
         nq = len(Q)
         fnname = {f['id']: n for n, f in L.fns.items()}
         fnname.update({v: k for k, v in execlib.SPECIAL_ID.items()})
+        fnname[2001] = 'user-crystal-array-episode'
         # ---- (1) fresh-process baseline: each query is the first and only call of its own process
         nbase = nq if tier == 'thorough' else min(nq, 2500)
-        base_idx = np.sort(rng.choice(nq, nbase, replace=False))
+        base_idx = np.unique(np.concatenate([rng.choice(nq, nbase, replace=False), np.nonzero(Q['fn'] == 2001)[0]]))
 
         def fresh(i):
             r = Q[i:i + 1].copy()
@@ -168,6 +174,16 @@ def main(tier):
             baseline[int(i)] = c
             _check_report(ck, rep, 'fresh:' + fnname.get(int(Q[i]['fn']), '?'), config, fresh=True)
         totals['fresh'] += len(baseline); totals['evals'] += len(baseline)
+        # Crystal_ReadFile parses numbers with scanf, i.e. in the process locale: that is an input of the call, not call history,
+        # so the file-reading episodes get a second fresh-process baseline taken under the comma-decimal locale
+        ep = [int(i) for i in np.nonzero(Q['fn'] == 2001)[0]]
+        base_loc = {}
+        for i in ep:
+            resp, msgs, rep = P.run(Q[i:i + 1].copy(), [], dict(LOCPATH=locdir, LC_ALL='xx_VERIF'))
+            if resp is not None:
+                base_loc[i] = canon(resp, msgs)[0]
+                _check_report(ck, rep, 'fresh:user-crystal-array-episode', config, fresh=True)
+                baseline.setdefault(i, base_loc[i])
         # ---- (2) histories: random interleavings in one process, with and without XRayInit, C and comma locale
         bidx = np.array(sorted(baseline))
         for h in range(nhist):
@@ -192,12 +208,13 @@ def main(tier):
             isb = np.isin(seq, bidx)
             for k in np.nonzero(isb)[0]:
                 q = int(seq[k])
-                if can[k] != baseline[q]:
+                want = base_loc[q] if (h % 3 == 1 and q in base_loc) else baseline[q]
+                if can[k] != want:
                     fn = fnname.get(int(Q[q]['fn']), '?')
                     pred = fnname.get(int(Q[seq[k - 1]]['fn']), '?') if k else 'start'
                     ck.violation('c16:history-dependent-result:%s' % fn,
                                  '%s returns a different result after a call history than as first call of a fresh process' % fn,
-                                 dict(request=_show(Q[q], S, fn), fresh=_cshow(baseline[q]), in_history=_cshow(can[k]), predecessor=pred,
+                                 dict(request=_show(Q[q], S, fn), fresh=_cshow(want), in_history=_cshow(can[k]), predecessor=pred,
                                       history=h, position=int(k), env=env, config=config, seed=ck.seed))
                 else:
                     totals['reobserved'].add((config, q))
